@@ -4,12 +4,18 @@ Regenerates lean/PedalModel/Gen/SandboxExecGen.lean from the tree under test (C0
 Two kinds of extraction:
 
 * AST (order and structure matter, and it cannot be observed without running programs):
-  `Sandbox._execute` is walked statement by statement into the handler ladder
-  `pre; try body; except clauses; else; finally; post`.  A statement the walker does not recognise becomes
-  `Act.unknown` (the well-formedness check in PedalProofs/C05.lean then fails) - it is never dropped.
-  `Sandbox._import` (import of another student file during an execution) is scanned for the three facts the
-  model relies on: its `exec` sits inside the tracer's `with`, it has no `try`, it calls none of the mocking /
-  capturing methods.
+  `Sandbox._execute` is read BY MEANING into the handler ladder `pre; try body; except clauses; else; finally; post`
+  by harness/sandboxexec_ladder.py - a symbolic reader (locals followed, private helpers and local functions inlined,
+  the non-threaded path chosen by partial evaluation, `except` over a tuple of classes / a class or module constant
+  and `isinstance` dispatch inside `except BaseException` expanded into the equivalent clauses) whose result is
+  CROSS-CHECKED against the behaviour of the real `_execute` measured on an instrumented sandbox (one run per
+  control signature); simple statements the reader cannot follow are taken from that measurement.  A statement that
+  is neither read nor measured, an `except` class the model has no clause for, or a reading that disagrees with the
+  measurement becomes `Act.unknown` (the well-formedness check in PedalProofs/C05.lean then fails) - it is never
+  dropped.  harness/sandboxexec_ladder_selftest.py runs ~55 harmless / broken rewrites of `_execute` through it.
+  `Sandbox._import` (import of another student file during an execution) is scanned, private helpers followed, for
+  the three facts the model relies on: its `exec` sits inside the tracer's `with`, there is no `try` in it (nor, in a
+  helper, around the way to the `exec`), it calls none of the mocking / capturing methods.
 * Probes (behaviour of small units, robust against refactoring): `_start_mocking` / `_stop_mocking` /
   `_stop_patches` / `_reset_builtins` are called on a fresh Sandbox and the borrowed globals are compared;
   every tracer style is entered/left around a pre-installed trace function; `ExpandedTraceback.line_number`
